@@ -466,6 +466,26 @@ def opStructcmp (f : Fields) (profile : Profile) : String :=
         let inter := interleave (chans.map fun c => c.take n)
         s!"ok struct=ok used={p.used} bs={bs} nsub={fr.subs.length} lens={",".intercalate (exps.map fun xs => toString xs.length)} lens_ok={lensOk} rewritten={bytesToHex canon.serialize} spcm={joinInts inter} {decS}"
 
+/-! ### crash prefixes (C14) -/
+
+def opCrash (f : Fields) (impl : Fields) (implHead : String) (profile : Profile) : String :=
+  if implHead != "ok" then "model-skip" else
+  match hexToBytes (impl.get "s") with
+  | none => "model-error bad-hex"
+  | some sbytes =>
+    let pcm := parseInts (f.get "pcm")
+    let ch := ((f.get "ch").toNat?).getD 1
+    let cuts := ((impl.get "cutres").splitOn ",").filterMap fun it => ((it.splitOn ":").headD "").toNat?
+    let items := cuts.map fun cut =>
+      match fileDecode profile (sbytes.take cut) with
+      | .error _ => s!"{cut}:0:openerr:1"
+      | .ok run =>
+        let d := run.frames.flatMap interleave
+        let m := d.length ≤ pcm.length && d == pcm.take d.length
+        let st := match run.stop with | none => "ok" | some (.panic _) => "PANIC" | some _ => "err"
+        s!"{cut}:{d.length / ch}:{st}:{if m then 1 else 0}"
+    s!"ok cutres={if items.isEmpty then "-" else ",".intercalate items}"
+
 def runCase (line : String) : String :=
   let parts := line.splitOn "\t"
   let caseLine := parts.headD ""
@@ -478,6 +498,7 @@ def runCase (line : String) : String :=
   | "encframe" => opEncframe f impl implHead profile
   | "hist" => opHist f ++ " @@ -"
   | "structcmp" => opStructcmp f profile ++ " @@ -"
+  | "crash" => opCrash f impl implHead profile ++ " @@ -"
   | "decfile" => opDecfile f profile ++ " @@ " ++ specSlotDecfile f impl implHead
   | "wr" =>
     if implHead != "ok" || impl.get "file" == "" then "model-skip @@ -" else
